@@ -143,7 +143,7 @@ NAMESETS = [
 
 def scenarios(tier, seed):
     out = []
-    for i, ns in enumerate(NAMESETS if tier != "quick" else NAMESETS[:4]):
+    for i, ns in enumerate(NAMESETS):
         out.append({"kind": "menu", "seed": seed * 1000 + 1200 + i, "names": ns, "ndims": 3 if i % 2 == 0 else 2,
                     "nlevels": 1 + i % 3, "nfiles": 1 + i % 2, "layout": "shuffled", "time": [0.25, -1.5, 0.0, 3e-7, 12.0, 1.0][i % 6],
                     "n0": [16, 16, 8] if i % 2 == 0 else [32, 16]})
